@@ -7,7 +7,89 @@ lazily (an invalid selection may only fail when the result is first read)."""
 import os, copy, tempfile, warnings
 import numpy as np
 from .common import NONE, use_repo
-from .enc import DT2NP, dt_of, enc_seq, enc_val, dec_val, dec_seq, kind
+from . import enc as _enc
+from .enc import kind
+
+# ------------------------------------------------------------------ the "high bits" realisation
+# TLC's integers are 32-bit, so the specification cannot hold the extremes of the 64-bit (32-bit) dtypes.  For operations that
+# only move, compare, add, subtract or bit-combine values, an int16 / uint16 case IS such a case: scaling every value by 2**48
+# (2**16) maps int16 arithmetic onto the top 16 bits of int64 (int32) arithmetic, wrap-around included
+# (Wrap64(k * 2**48) = Wrap16(k) * 2**48).  With opts["hi"] = 48 | 16 the executor builds the operands of an i2 / u2 case in the
+# wide dtype, scaled, runs the same call, and maps the result back (exact division, dtype renamed); `hi_ok` says for which cases.
+_HI = [0]
+_HI_KEEP = [False]          # the result dtype is the wide one by numpy's own rules (sums): only the values are scaled back
+HI_NP = {48: {"i2": np.int64, "u2": np.uint64}, 16: {"i2": np.int32, "u2": np.uint32}}
+
+
+class HiBroken(Exception):
+    pass
+
+
+class _DTMap(dict):
+    def __getitem__(self, dt):
+        if _HI[0] and dt in ("i2", "u2"):
+            return HI_NP[_HI[0]][dt]
+        return _enc.DT2NP[dt]
+
+
+DT2NP = _DTMap()
+
+
+def dec_seq(q, dt):
+    a = _enc.dec_seq(q, dt)
+    if _HI[0] and dt in ("i2", "u2"):
+        return a.astype(DT2NP[dt]) << _HI[0]
+    return a
+
+
+def dec_val(v, dt):
+    x = _enc.dec_val(v, dt)
+    if _HI[0] and dt in ("i2", "u2"):
+        return int(x) << _HI[0]
+    return x
+
+
+def _unhi(a):
+    """map a result of a scaled run back: exact division by the scale (anything else is a wrong result)"""
+    a = np.asarray(a)
+    sh = _HI[0]
+    if not sh or a.dtype == bool:
+        return a
+    if a.dtype.kind in "iu" and a.dtype.itemsize * 8 > sh:
+        if a.size and np.any((a & ((1 << sh) - 1)) != 0):
+            raise HiBroken()
+        b = a >> sh
+        if not _HI_KEEP[0] and a.dtype in (np.dtype(HI_NP[sh]["i2"]), np.dtype(HI_NP[sh]["u2"])):
+            b = b.astype(np.int16 if a.dtype.kind == "i" else np.uint16)
+        return b
+    if a.dtype.kind == "f":
+        return a / float(1 << sh)
+    return a
+
+
+def dt_of(npdtype):
+    return _enc.dt_of(npdtype)
+
+
+def enc_seq(a, wide=False, dt=None):
+    a = _unhi(a)
+    return _enc.enc_seq(a, wide, _enc.dt_of(a.dtype) if _HI[0] else dt)
+
+
+def enc_val(x, dt, wide=False):
+    if _HI[0]:
+        if isinstance(x, int) and not isinstance(x, bool) and dt in ("i8", "u8"):
+            dt = "u8" if x >= 2 ** 63 else "i8"         # a python int result carries no dtype of its own
+        a = _unhi(np.asarray(x, dtype=_enc.DT2NP.get(dt)) if dt in _enc.DT2NP else np.asarray(x))
+        return _enc.enc_val(a.item(), _enc.dt_of(a.dtype), wide)
+    return _enc.enc_val(x, dt, wide)
+
+
+def out_dt(npdtype):
+    """abstract dtype name of a result (after the mapping back, if any)"""
+    if _HI[0]:
+        return _enc.dt_of(_unhi(np.zeros(0, dtype=npdtype)).dtype)
+    return _enc.dt_of(npdtype)
 
 use_repo()
 warnings.simplefilter("ignore")
@@ -134,7 +216,7 @@ def pre_reads(a, pre):
 
 # ------------------------------------------------------------------ projecting results
 def proj_ragged(r, wide=False, tag="ragged"):
-    dt = dt_of(r.dtype)
+    dt = out_dt(r.dtype)
     rows = [enc_seq(row, wide, dt) for row in r]            # public iteration
     if len(rows) != len(r):
         return ["broken", "len(ra) != number of iterated rows"]
@@ -147,9 +229,9 @@ def proj_any(r, wide=False, hint=None):
     if isinstance(r, tuple):
         return ["pair"] + [[int(x) for x in np.asarray(t).ravel().tolist()] for t in r]
     if isinstance(r, np.ndarray):
-        dt = dt_of(r.dtype)
+        dt = out_dt(r.dtype)
         if r.ndim == 0:
-            return ["scalar", dt, enc_val(r.item(), dt, wide)]
+            return ["scalar", dt, enc_val(r.item(), dt_of(r.dtype), wide)]
         if r.ndim == 1:
             return [hint or "flat", dt, enc_seq(r, wide, dt)]
         if r.ndim == 2:
@@ -158,8 +240,8 @@ def proj_any(r, wide=False, hint=None):
             return ["matrix", dt, [enc_seq(row, wide, dt) for row in r]]
         return ["other", str(r.shape)]
     if isinstance(r, (np.generic,)):
-        dt = dt_of(r.dtype)
-        return ["scalar", dt, enc_val(r.item(), dt, wide)]
+        dt = out_dt(r.dtype)
+        return ["scalar", dt, enc_val(r.item(), dt_of(r.dtype), wide)]
     if isinstance(r, bool):
         return ["scalar", "b1", int(r)]
     if isinstance(r, int):
@@ -274,11 +356,11 @@ def op_readback(case, o):
         return ["dtype", dt_of(a.dtype)]
     if rk == "iter":
         rows = [enc_seq(r, wide, dt_of(a.dtype)) for r in a]
-        return ["ragged", dt_of(a.dtype), rows]
+        return ["ragged", out_dt(a.dtype), rows]
     if rk == "tolist":
         l = a.tolist()
         d = dt_of(a.dtype)
-        return ["ragged", d, [[enc_val(v, d, wide) for v in r] for r in l]]
+        return ["ragged", out_dt(a.dtype), [[enc_val(v, d, wide) for v in r] for r in l]]
     if rk == "copy":
         return proj_ragged(copy.deepcopy(a), wide)
     if rk == "ravel":
@@ -370,7 +452,7 @@ def py_operand(opd, o):
         return DT2NP[opd[1]](dec_val(opd[2], opd[1]))
     if k == "py":
         pk = opd[1]
-        return bool(opd[2]) if pk == "pybool" else int(opd[2]) if pk == "pyint" else dec_val(opd[2], "f8")
+        return bool(opd[2]) if pk == "pybool" else (int(opd[2]) << _HI[0]) if pk == "pyint" else dec_val(opd[2], "f8")
     if k == "col":
         return dec_seq(opd[2], opd[1]).reshape(-1, 1)
     if k == "collist":
@@ -580,12 +662,121 @@ def execute(case, opts=None):
     if w:
         ViewBase.set_dtype(np.int32 if w == 32 else np.int64)
     _PRE[0] = o.get("pre")
+    mode = hi_ok(case) if o.get("hi") else None
+    _HI[0] = int(o["hi"]) if mode else 0
+    _HI_KEEP[0] = mode == "keep"
     try:
         return OPS[case[0]](case, o)
+    except HiBroken:
+        return ["broken", "the result of the scaled run is not a multiple of the scale"]
     except AssertionError as e:
         return ["raised", "AssertionError"]
     except Exception as e:                                  # any exception type counts as "refused"
         return ["raised", type(e).__name__]
     finally:
+        _HI[0] = 0
+        _HI_KEEP[0] = False
         if w:
             ViewBase.set_dtype(np.int64)
+
+
+# ------------------------------------------------------------------ where the high-bits realisation is valid
+HI_BIN = {"add", "subtract", "maximum", "minimum", "less", "less_equal", "greater", "greater_equal", "equal", "not_equal",
+          "logical_and", "logical_or", "logical_xor", "bitwise_and", "bitwise_or", "bitwise_xor"}
+HI_UN = {"negative", "absolute", "logical_not"}
+
+
+def _rng(dt):
+    return (-32768, 32767) if dt == "i2" else (0, 65535)
+
+
+def _sums_fit(rows, dt, prefixes=False):
+    lo, hi = _rng(dt)
+    for r in rows:
+        t = 0
+        for v in r:
+            t += v
+            if prefixes and not lo <= t <= hi:
+                return False
+        if not lo <= t <= hi:
+            return False
+    return True
+
+
+def hi_ok(case):
+    """None: not applicable; "relabel": results of the wide dtype are the case's dtype; "keep": results are wide by numpy's own
+    promotion (sums), only their values are scaled back."""
+    try:
+        op = case[0]
+        if op == "readback":
+            ctor, reader = case[1], case[2]
+            return "relabel" if ctor[1] in ("i2", "u2") and reader[0] in ("iter", "tolist", "copy", "ravel", "to_numpy", "save_load") else None
+        if op in ("getitem", "setitem"):
+            return "relabel" if case[1][0] in ("i2", "u2") else None
+        if op == "ufunc":
+            f, a, b = case[1], case[2], case[3]
+            opds = [x for x in (a, b) if x[0] != "none"]
+            dts = set()
+            for x in opds:
+                if x[0] == "ra":
+                    dts.add(x[1][0])
+                elif x[0] in ("np", "col"):
+                    dts.add(x[1])
+                elif x[0] == "py" and x[1] == "pyint":
+                    pass
+                else:
+                    return None
+            if len(dts) != 1 or next(iter(dts)) not in ("i2", "u2"):
+                return None
+            dt = next(iter(dts))
+            if any(x[0] == "py" and not _rng(dt)[0] <= x[2] <= _rng(dt)[1] for x in opds):
+                return None
+            return "relabel" if (f in HI_BIN and len(opds) == 2) or (f in HI_UN and len(opds) == 1) else None
+        if op == "reduce":
+            name, arr, axis = case[1], case[2], case[3]
+            dt = arr[0]
+            if dt not in ("i2", "u2"):
+                return None
+            flat = [[v for r in arr[1] for v in r]]
+            if name[0] == "n" and name[1] in ("max", "min", "any", "all"):
+                return "relabel"
+            if (name[0] == "n" and name[1] in ("sum", "mean")) or (name[0] == "r" and name[1] == "add"):
+                return "keep" if _sums_fit(arr[1], dt) and _sums_fit(flat, dt) else None
+            if name[0] == "r" and name[1] in ("maximum", "minimum", "bitwise_or", "bitwise_xor", "logical_or", "logical_and"):
+                return "relabel"
+            return None
+        if op == "scan":
+            name, arr = case[1], case[2]
+            if arr[0] not in ("i2", "u2"):
+                return None
+            if name in ("sort", "unique", "diff", "acc_subtract", "acc_bitwise_xor"):
+                return "relabel"
+            if name in ("cumsum", "acc_add"):
+                return "keep" if _sums_fit(arr[1], arr[0], prefixes=True) else None
+            return None
+        if op == "concat":
+            return "relabel" if {a[0] for a in case[1]} in ({"i2"}, {"u2"}) else None
+        if op == "pad":
+            return "relabel" if case[1][0] in ("i2", "u2") else None
+        if op == "where":
+            x, y = case[2], case[3]
+            return "relabel" if x[0] in ("i2", "u2") and (y[0] != "ra" or y[1][0] == x[0]) else None
+        if op == "subset":
+            return "relabel" if case[1][0] in ("i2", "u2") else None
+        if op == "ragged_slice":
+            inp = case[1]
+            return "relabel" if (inp[1][0] if inp[0] == "ra" else inp[1]) in ("i2", "u2") else None
+        if op == "col":
+            name, arr = case[1], case[2]
+            if arr[0] not in ("i2", "u2"):
+                return None
+            if name == "colvalues":
+                return "relabel"
+            if name in ("colsum", "colmean"):
+                m = max([len(r) for r in arr[1]] or [0])
+                cols = [[r[j] for r in arr[1] if len(r) > j] for j in range(m)]
+                return "keep" if _sums_fit(cols, arr[0]) else None
+            return None
+    except Exception:
+        return None
+    return None
